@@ -560,7 +560,8 @@ Open ==
        IF ~r.ok THEN
           \* after damage open may report Corruption, except after payload/CRC damage of a single frame (C09)
           /\ verdict' = IF damaged /\ ~(ndamage = 1 /\ dkinds = {"crc"}) THEN verdict ELSE "openfail"
-          /\ UNCHANGED <<mem, tracked, wfile, woff, exists, sized, todo, mode, done, pendP, pendW, inflight, assigned, items>>
+          /\ UNCHANGED <<mem, tracked, wfile, woff, exists, sized, todo, mode, done, pendP, pendW, inflight, assigned, items,
+                         lastRet, cfile>>
        ELSE
           LET x == AbsOf(r.m)
               okState == IF clean THEN x = done
@@ -585,12 +586,15 @@ Open ==
                             ELSE [q \in Queues |-> IF x[q].a THEN x[q].next - 1 ELSE -1]
              /\ todo' = g.effs
              /\ mode' = "Ready"
+             \* C06 "and after open": the file being written when the GC pass of open begins is the one
+             \* recovery resumed the writer in
+             /\ lastRet' = [NoCall EXCEPT !.op = "open"] /\ cfile' = r.file
              \* torn items stay as they are (garbage behind or under the cursor)
              /\ items' = items
   /\ lastOs' = 0
   /\ damaged' = FALSE
   /\ batches' = IF inflight.op \in {"truncate", "delete"} /\ ~IsRejectOrNoop(done, inflight) THEN TruncBatches(batches, inflight) ELSE batches
-  /\ UNCHANGED <<entries, dirDurable, buffered, osCnt, wsum, wstart, nops, post, ncrash, clean, lastRet, lastLoss, cfile, ndamage, hits, dkinds>>
+  /\ UNCHANGED <<entries, dirDurable, buffered, osCnt, wsum, wstart, nops, post, ncrash, clean, lastLoss, ndamage, hits, dkinds>>
 
 Next == CallBegin \/ Step \/ CrashProcess \/ CrashPower \/ Restart \/ Open \/ Damage
 
@@ -623,6 +627,17 @@ BatchAtomic ==
 MinOf(S) == CHOOSE x \in S : \A y \in S : x <= y
 FilesBound ==
   (mode = "Ready" /\ todo = <<>> /\ lastRet.op \in {"truncate", "delete"} /\ wsum # wstart /\ ncrash = 0) =>
+     LET lo == MinOf(exists)
+         refs == QRefs(mem)
+         bound == IF refs = {} THEN cfile ELSE FrMin(MinOf(refs), cfile)
+     IN /\ exists = lo..wfile
+        /\ tracked = exists
+        /\ lo >= bound
+
+(* the same once the GC pass that ends an open is done - a clean restart or the recovery of any   *)
+(* crash image (C06 "and after open")                                                             *)
+FilesBoundOpen ==
+  (mode = "Ready" /\ todo = <<>> /\ lastRet.op = "open") =>
      LET lo == MinOf(exists)
          refs == QRefs(mem)
          bound == IF refs = {} THEN cfile ELSE FrMin(MinOf(refs), cfile)
